@@ -109,6 +109,16 @@ def build_world(scen_seed):
                 sc.add_objects(DynamicObstacle(720, o.obstacle_type, o.obstacle_shape, o.initial_state, o.prediction,
                                                initial_signal_state=o.initial_signal_state, signal_series=ser))
                 break
+        # zeros of both signs (str(-0.0) = '-0.0'), and in one scenario of the case a long lanelet (> 1024 distinct
+        # numbers in one file): anything a writer memoises per number is exercised across writes and writers
+        st0 = InitialState(time_step=0, position=np.array([0.0, -0.0]), orientation=-0.0, velocity=0.0,
+                           acceleration=-0.0, yaw_rate=0.0, slip_angle=0.0)
+        sc.add_objects(DynamicObstacle(711, ObstacleType.CAR, Rectangle(2.0, 1.0), st0, None))
+        if i == scen_seed % 3:
+            xs = [0.0] + [round(0.37 * j + 0.001 * (j % 7), 6) for j in range(1, 640)]
+            right = np.array([[x, -0.0 if j == len(xs) - 1 else -1.5 - 0.0001 * j] for j, x in enumerate(xs)])
+            left = np.array([[x, 1.5 + 0.0001 * j] for j, x in enumerate(xs)])
+            sc.add_objects(Lanelet(left, (left + right) / 2.0, right, 82))
         # the same for lanelet boundaries: one lanelet whose vertex values all scenarios of the case share, one of its own
         sc.add_objects(_fine_lanelet(80, shared_xs, 60 + math.sqrt(2), 63 + math.e))
         sc.add_objects(_fine_lanelet(81, [rng.uniform(0, 30) for _ in range(2)], 70 + rng.random(), 73 + rng.random()))
